@@ -75,7 +75,17 @@ func (check) RunCase(seed int64, index int, tier string, env *run.Env) run.CaseR
 		return res
 	}
 	defer d.b.Close()
+	// half of the cases keep ONE scheduler cache for the whole history (cross-cycle in-memory state of the scheduler
+	// process is then part of what is observed); the other half gets a fresh cache per cycle
+	d.run.Persistent = index%2 == 1
+	defer d.run.Close()
+	if d.run.Persistent {
+		d.counters["cases_with_persistent_scheduler_cache"]++
+	}
 	runErr := d.runAll()
+	if d.notSynced > 0 && runErr == nil {
+		runErr = fmt.Errorf("scheduler cache listers did not reach the store content before %d cycle(s)", d.notSynced)
+	}
 	j := &judge{d: d, seen: map[string]bool{}, count: d.counters}
 	j.run()
 	cn := d.counters
